@@ -10,6 +10,9 @@ import Mathlib.Algebra.BigOperators.Ring.Finset
 import Mathlib.Algebra.Order.BigOperators.Group.Finset
 import Mathlib.Algebra.Order.Field.Rat
 import Mathlib.Algebra.Order.Ring.Abs
+import Mathlib.Tactic.FieldSimp
+import Mathlib.Tactic.Positivity
+import Mathlib.Tactic.Push
 
 namespace StirVerif.C15
 open Finset
@@ -180,5 +183,87 @@ theorem spec_com_bound (n m : ℕ) (inv ic oc : ℕ → ℚ) (win wout : ℚ)
         ≤ inv j * ovLen (ic j) (ic (j + 1)) (oc i) (oc (i + 1)) * ((win + wout) / 2) :=
           mul_le_mul_of_nonneg_left (le_trans hd hw) (mul_nonneg hinv hov)
       _ = (win + wout) / 2 * (inv j * ovLen (ic j) (ic (j + 1)) (oc i) (oc (i + 1))) := by ring
+
+/-- the centre of mass itself: with positive total it moves by at most `½(w_in + w_out)` -/
+theorem spec_com_shift (n m : ℕ) (inv ic oc : ℕ → ℚ) (win wout : ℚ)
+    (hic : ∀ j < n, ic j ≤ ic (j + 1)) (hoc : ∀ i < m, oc i ≤ oc (i + 1))
+    (hl : oc 0 ≤ ic 0) (hr : ic n ≤ oc m) (hpos : ∀ j < n, 0 ≤ inv j)
+    (hwin : ∀ j < n, ic (j + 1) - ic j ≤ win) (hwout : ∀ i < m, oc (i + 1) - oc i ≤ wout)
+    (htot : 0 < ∑ j ∈ range n, inv j * (ic (j + 1) - ic j)) :
+    |(∑ i ∈ range m, specBox n inv ic (oc i) (oc (i + 1)) * ((oc i + oc (i + 1)) / 2)) / (∑ i ∈ range m, specBox n inv ic (oc i) (oc (i + 1)))
+        - (∑ j ∈ range n, inv j * (ic (j + 1) - ic j) * ((ic j + ic (j + 1)) / 2)) / (∑ j ∈ range n, inv j * (ic (j + 1) - ic j))|
+      ≤ (win + wout) / 2 := by
+  rw [spec_conserves n m inv ic oc hic hoc hl hr]
+  have hb := spec_com_bound n m inv ic oc win wout hic hoc hl hr hpos hwin hwout
+  generalize (∑ j ∈ range n, inv j * (ic (j + 1) - ic j)) = M at *
+  rw [← sub_div, abs_div, abs_of_pos htot, div_le_iff₀ htot]
+  exact hb
+
+/-! ### the regular grids of `zoom_image` (one axis) -/
+
+/-- input boxes of `overlap_interpolate(out, in, zoom, offset)`: box of index `lo + j` is `[lo + j − ½, lo + j + ½]` -/
+def inEdge (lo : ℤ) (j : ℕ) : ℚ := ((lo + j : ℤ) : ℚ) - 1 / 2
+/-- output boxes in input index units: box of index `lo + i` is `[(lo+i−½)/zoom + offset, (lo+i+½)/zoom + offset]` -/
+def outEdge (lo : ℤ) (zoom offset : ℚ) (i : ℕ) : ℚ := (((lo + i : ℤ) : ℚ) - 1 / 2) / zoom + offset
+
+theorem inEdge_step (lo : ℤ) (j : ℕ) : inEdge lo (j + 1) - inEdge lo j = 1 := by
+  unfold inEdge; push_cast; ring
+
+theorem outEdge_step (lo : ℤ) (zoom offset : ℚ) (i : ℕ) : outEdge lo zoom offset (i + 1) - outEdge lo zoom offset i = 1 / zoom := by
+  unfold outEdge; push_cast; ring
+
+/-- **`zoom_com_bound`, one axis, in millimetres.**  Input voxel size `vin`, zoom `z = vin/vout`: for non-negative data whose grid is
+    covered by the new grid, the centre of mass (voxel centres, physical coordinates `vin·(index units)`) moves by at most `½(vin + vout)`. -/
+theorem zoom_axis_com_bound (n m : ℕ) (inv : ℕ → ℚ) (ilo olo : ℤ) (zoom offset vin : ℚ) (hz : 0 < zoom) (hv : 0 < vin)
+    (hl : outEdge olo zoom offset 0 ≤ inEdge ilo 0) (hr : inEdge ilo n ≤ outEdge olo zoom offset m)
+    (hpos : ∀ j < n, 0 ≤ inv j) (htot : 0 < ∑ j ∈ range n, inv j) :
+    let out := fun i => specBox n inv (inEdge ilo) (outEdge olo zoom offset i) (outEdge olo zoom offset (i + 1))
+    let cOut := fun i => vin * ((outEdge olo zoom offset i + outEdge olo zoom offset (i + 1)) / 2)
+    let cIn := fun j => vin * ((inEdge ilo j + inEdge ilo (j + 1)) / 2)
+    |(∑ i ∈ range m, out i * cOut i) / (∑ i ∈ range m, out i) - (∑ j ∈ range n, inv j * cIn j) / (∑ j ∈ range n, inv j)|
+      ≤ (vin + vin / zoom) / 2 := by
+  intro out cOut cIn
+  have hic : ∀ j < n, inEdge ilo j ≤ inEdge ilo (j + 1) := fun j _ => by have := inEdge_step ilo j; linarith
+  have hpz : 0 < 1 / zoom := by positivity
+  have hoc : ∀ i < m, outEdge olo zoom offset i ≤ outEdge olo zoom offset (i + 1) := fun i _ => by
+    have := outEdge_step olo zoom offset i; linarith
+  have hmass : ∑ j ∈ range n, inv j * (inEdge ilo (j + 1) - inEdge ilo j) = ∑ j ∈ range n, inv j := by
+    apply sum_congr rfl; intro j _; rw [inEdge_step]; ring
+  have h := spec_com_shift n m inv (inEdge ilo) (outEdge olo zoom offset) 1 (1 / zoom) hic hoc hl hr hpos
+    (fun j _ => le_of_eq (inEdge_step ilo j)) (fun i _ => le_of_eq (outEdge_step olo zoom offset i)) (by rw [hmass]; exact htot)
+  rw [hmass] at h
+  have e1 : ∑ i ∈ range m, out i * cOut i
+      = vin * ∑ i ∈ range m, specBox n inv (inEdge ilo) (outEdge olo zoom offset i) (outEdge olo zoom offset (i + 1))
+          * ((outEdge olo zoom offset i + outEdge olo zoom offset (i + 1)) / 2) := by
+    rw [mul_sum]; apply sum_congr rfl; intro i _; simp only [out, cOut]; ring
+  have e2 : ∑ j ∈ range n, inv j * cIn j
+      = vin * ∑ j ∈ range n, inv j * (inEdge ilo (j + 1) - inEdge ilo j) * ((inEdge ilo j + inEdge ilo (j + 1)) / 2) := by
+    rw [mul_sum]; apply sum_congr rfl; intro j _; simp only [cIn]; rw [inEdge_step]; ring
+  rw [e1, e2, mul_div_assoc, mul_div_assoc, ← mul_sub, abs_mul, abs_of_pos hv]
+  calc vin * _ ≤ vin * ((1 + 1 / zoom) / 2) := mul_le_mul_of_nonneg_left h (le_of_lt hv)
+    _ = (vin + vin / zoom) / 2 := by ring
+
+/-- **`zoom_preserve_sum`, one axis**: the new grid covers the old one ⇒ the sum is conserved -/
+theorem zoom_axis_preserve_sum (n m : ℕ) (inv : ℕ → ℚ) (ilo olo : ℤ) (zoom offset : ℚ) (hz : 0 < zoom)
+    (hl : outEdge olo zoom offset 0 ≤ inEdge ilo 0) (hr : inEdge ilo n ≤ outEdge olo zoom offset m) :
+    ∑ i ∈ range m, specBox n inv (inEdge ilo) (outEdge olo zoom offset i) (outEdge olo zoom offset (i + 1)) = ∑ j ∈ range n, inv j := by
+  have hic : ∀ j < n, inEdge ilo j ≤ inEdge ilo (j + 1) := fun j _ => by have := inEdge_step ilo j; linarith
+  have hpz : 0 < 1 / zoom := by positivity
+  have hoc : ∀ i < m, outEdge olo zoom offset i ≤ outEdge olo zoom offset (i + 1) := fun i _ => by
+    have := outEdge_step olo zoom offset i; linarith
+  rw [spec_conserves n m inv (inEdge ilo) (outEdge olo zoom offset) hic hoc hl hr]
+  apply sum_congr rfl; intro j _; rw [inEdge_step]; ring
+
+/-- **`zoom_preserve_values_uniform`, one axis**: an output voxel lying inside the input grid, all of whose overlapping input voxels hold `c`,
+    gets `c/zoom`, hence `c` after the `preserve_values` scaling by `zoom`. -/
+theorem zoom_axis_uniform (n : ℕ) (inv : ℕ → ℚ) (ilo olo : ℤ) (zoom offset c : ℚ) (hz : 0 < zoom) (i : ℕ)
+    (hl : inEdge ilo 0 ≤ outEdge olo zoom offset i) (hr : outEdge olo zoom offset (i + 1) ≤ inEdge ilo n)
+    (hc : ∀ j < n, ovLen (inEdge ilo j) (inEdge ilo (j + 1)) (outEdge olo zoom offset i) (outEdge olo zoom offset (i + 1)) ≠ 0 → inv j = c) :
+    zoom * specBox n inv (inEdge ilo) (outEdge olo zoom offset i) (outEdge olo zoom offset (i + 1)) = c := by
+  have hic : ∀ j < n, inEdge ilo j ≤ inEdge ilo (j + 1) := fun j _ => by have := inEdge_step ilo j; linarith
+  have hpz : 0 < 1 / zoom := by positivity
+  have hstep := outEdge_step olo zoom offset i
+  rw [spec_uniform n inv (inEdge ilo) _ _ c (by linarith) hic hl hr hc, hstep]
+  field_simp
 
 end StirVerif.C15
